@@ -26,6 +26,11 @@ package rules
 //                     core.Compute, core.Parent (Visible, SetChild, Refs, ChangesetID), core.Datasourcer (Get,
 //                     NotFound), core.ChildList (FindVisible, VersionBefore), core.Options and its fields,
 //                     the exported error types of package core
+//   inlining policy   in core.Compute: unexported functions/methods, exported-name methods of unexported receiver types
+//                     and loop-free forwarders are inlined; kept opaque are the child version selectors (any function
+//                     or method (ChildList, ...) -> *shared.Child containing a loop: FindVisible, VersionBefore) and
+//                     the grouping method (the method called on an element of the location map); function literals
+//                     are executed on the environment of the frame that created them (also when handed to a helper)
 //   role / dataflow   everything else: "the parent of the group" is the X of the parents[X].Visible() decision,
 //                     "the current child" is child.FindVisible(parents[X].ChangesetID(), ...), "the window
 //                     loop" is the loop whose variable indexes child in child[k].Update(), "the location map"
@@ -65,7 +70,7 @@ func init() {
 			"(A2) every path of Compute that returns an error returns one of the documented kinds after the required decisions: the datasource's error unchanged needs err != nil && !NotFound(err); *NoHistoryError (ChildID = the requested id) needs NotFound(err) && !IgnoreMissingChildren; *NoVisibleChildError needs FindVisible(<this parent>) == nil && !IgnoreInconsistency; any other error needs a child version decided not visible && !IgnoreInconsistency; on every path of annotate.Ways / annotate.Relations that reaches core.Compute a loop over the variadic options has called each option with the very *core.Options value handed to Compute; where Compute's error may be non-nil it is classified against every exported core error type, a recognised *core.T is returned as &annotate.T with the corresponding fields carried over, every other error is returned unchanged, and nil is never returned instead; each exported option constructor returns a function that sets exactly the same-named core.Options field from the constructor's argument and returns nil; " +
 			"(A3) SetChild of every Parent implementation stores, on every path with a non-nil child, exactly {Version, ChangesetID, Lat, Lon} of <member list>[idx], each from the same-named shared.Child field, stores none of them for a nil child and never uses child.<field> before deciding child != nil; Child.Update() returns Version, ChangesetID, Lat, Lon from the same-named fields and Reverse from ReverseOfPrevious on every path, and its Timestamp obeys the truth table over (Timestamp.Before(osm.CommitInfoStart), Committed.IsZero()): Committed exactly when both are false, Timestamp otherwise, with the tests made on the right fields; FromNode/FromWay/FromRelation return a Child whose ID is FeatureID(), whose Version, ChangesetID, Visible, Timestamp (Lat/Lon, Way) are the same-named fields and whose Committed is *Committed on the paths where that pointer was decided non-nil and the zero time on the others; " +
 			"(A4) every function of package annotate that builds a core.ChildList (make(core.ChildList, len(X))) calls X.SortByIDVersion() before the fill loop on every path, every iteration i of that loop stores c = shared.From…(X[i]) with c.VersionIndex = i at list[i] (no iteration without the store, no break), the filled list is what is returned, ReverseOfPrevious is IsReverse(X[i], X[i-1]) only after deciding i != 0; every Datasourcer.Get of package annotate returns nil, the result of such a builder or the user's AsChildren result; the comparator behind each SortByIDVersion, evaluated on all 9 relations of (ID_i vs ID_j, Version_i vs Version_j), is ID_i < ID_j || (ID_i == ID_j && Version_i < Version_j); " +
-			"(A5) locations are recorded as loc{i, j} under refs[j] of parents[i].Refs() and a ref is skipped only after deciding annotated[j] and !opts.ChildFilter(refs[j]); the parent processed is parents[G[0].<parent field>] for a group G produced by the grouping method from the locations of the fetched child, and that method yields maximal runs of one parent index; SetChild stores FindVisible(parent.ChangesetID(), <time of parent>, opts.Threshold) at cl.<index field> for the locations cl of the group; updates are child[k].Update() for the variable k of one loop with the strict condition k < end and k advanced by one, k starts at cur.VersionIndex+1 (cur != nil), VersionBefore(<time of parent>).VersionIndex+1 (cur == nil, non-nil) or 0, within a group only parents[I] and — after deciding I < len(parents)-1 — parents[I+1] are consulted and the bound depends on parents[I+1] when it exists, Update() is called only after deciding child[k].Visible, every iteration over the locations builds exactly one update with Index = cl.<index field> and appends it, the list accumulated by the window loop is empty at loop entry and is appended to results[I], results = make(…, len(parents)) is what the success path returns; Refs() and SetChild of every Parent implementation address the same member list at the same positions (ids[i] = L[i].FeatureID(), annotated[i] = L[i].Version != 0); " +
+			"(A5) locations are recorded as loc{i, j} under refs[j] of parents[i].Refs() and a ref is skipped only after deciding annotated[j] and !opts.ChildFilter(refs[j]); the parent processed is parents[G[0].<parent field>] for a group G produced by the grouping method from the locations of the fetched child, and that method yields maximal runs of one parent index; SetChild stores the result of the child version selector (a function or method (ChildList, ...) -> *shared.Child that searches the list: FindVisible) called with parent.ChangesetID(), a time derived from the parent and opts.Threshold at cl.<index field> for the locations cl of the group; updates are child[k].Update() for the variable k (plus a constant) of one loop with the strict condition k < end and k advanced by one — or for the elements of a range over child[start:end] —, k starts at cur.VersionIndex+1 (cur != nil), VersionBefore(<time of parent>).VersionIndex+1 (cur == nil, non-nil) or 0, within a group only parents[I] and — after deciding I < len(parents)-1 — parents[I+1] are consulted and the bound depends on parents[I+1] when it exists, Update() is called only after deciding child[k].Visible, every value appended to an update list that is (a local copy of) child[k].Update() has Index = cl.<index field> for the location cl of the iteration (range or counting loop) over the group and no other field overwritten, wherever Update() itself is called, and every such iteration appends exactly one, the list accumulated by the window loop is empty at loop entry and is appended to results[I], results = make(…, len(parents)) is what the success path returns; Refs() and SetChild of every Parent implementation address the same member list at the same positions (ids[i] = L[i].FeatureID(), annotated[i] = L[i].Version != 0); " +
 			"(A6) every success path of Compute runs a loop whose every iteration calls SortByIndex on the result list at its position, and the comparator behind osm.Updates.SortByIndex, evaluated on all 27 relations of (Index, Timestamp, Version) of two updates, is the strict lexicographic order: updates of one child location are applied oldest version last-wins even when timestamps are equal (sort.Sort is not stable). " +
 			"NOT decided: FindVisible / nextVersionIndex / VersionBefore threshold arithmetic (e.g. whether a boundary comparison is < or <=), the time-travel consequence (ApplyUpdatesUpTo(t) reproduces the state at t), correctness of user-supplied AsChildren datasources (their VersionIndex is trusted), Way/Relation.applyUpdate (C15.U4), that ApplyUpdatesUpTo applies the updates in slice order (C15) and the other comparators of package osm (C12). A code shape the interpreter cannot follow (goto, fallthrough, defer/go/select, address of a non-struct local, more than 20000 paths) makes the affected obligations Unknown (fails), never silently OK.",
 		Assumptions: []string{
@@ -169,6 +174,23 @@ func init() {
 			{Name: "updates-sort-ignores-index", File: "update.go", Find: "\tif us[i].Index != us[j].Index {\n\t\treturn us[i].Index < us[j].Index\n\t}\n\n\tif !us[i].Timestamp.Equal", Replace: "\tif !us[i].Timestamp.Equal", ExpectRule: "A6", ExpectConstruct: "order@Updates.SortByIndex"},
 			{Name: "compute-results-unsorted", File: cmp, Find: "\t\tr.SortByIndex()\n", Replace: "\t\t_ = r\n", ExpectRule: "A6", ExpectConstruct: "sort@Compute"},
 			{Name: "compute-sorts-first-result-only", File: cmp, Find: "\tfor _, r := range results {\n\t\tr.SortByIndex()\n\t}\n", Replace: "\tif len(results) > 0 {\n\t\tresults[0].SortByIndex()\n\t}\n", ExpectRule: "A6", ExpectConstruct: "sort@Compute"},
+			// ---- round 3: defects seeded into refactored shapes of the window (update built once, closure helper, sub-slice window)
+			{Name: "update-built-once-index-never-reset", File: cmp,
+				Find:       "\t\t\t\t\tfor _, cl := range locs {\n\t\t\t\t\t\tu := child[k].Update()\n\t\t\t\t\t\tu.Index = cl.Index\n\t\t\t\t\t\tupdates = append(updates, u)\n\t\t\t\t\t}\n",
+				Replace:    "\t\t\t\t\tu := child[k].Update()\n\t\t\t\t\tu.Index = locs[0].Index\n\t\t\t\t\tfor range locs {\n\t\t\t\t\t\tupdates = append(updates, u)\n\t\t\t\t\t}\n",
+				ExpectRule: "A5", ExpectConstruct: "window@Compute update-index"},
+			{Name: "closure-helper-skips-first-location", File: cmp,
+				Find:       "\t\t\t\t\tfor _, cl := range locs {\n\t\t\t\t\t\tu := child[k].Update()\n\t\t\t\t\t\tu.Index = cl.Index\n\t\t\t\t\t\tupdates = append(updates, u)\n\t\t\t\t\t}\n",
+				Replace:    "\t\t\t\t\teach := func(f func(index int)) {\n\t\t\t\t\t\tfor i := 1; i < len(locs); i++ {\n\t\t\t\t\t\t\tf(locs[i].Index)\n\t\t\t\t\t\t}\n\t\t\t\t\t}\n\t\t\t\t\teach(func(at int) {\n\t\t\t\t\t\tu := child[k].Update()\n\t\t\t\t\t\tu.Index = at\n\t\t\t\t\t\tupdates = append(updates, u)\n\t\t\t\t\t})\n",
+				ExpectRule: "A5", ExpectConstruct: "window@Compute update-index"},
+			{Name: "subslice-window-keeps-deleted-versions", File: cmp,
+				Find:       "\t\t\tfor k := start; k < nextVersion; k++ {\n\t\t\t\tif child[k].Visible {\n\t\t\t\t\t// It's possible for this child to be present at multiple locations in the parent\n\t\t\t\t\tfor _, cl := range locs {\n\t\t\t\t\t\tu := child[k].Update()\n\t\t\t\t\t\tu.Index = cl.Index\n\t\t\t\t\t\tupdates = append(updates, u)\n\t\t\t\t\t}\n\t\t\t\t} else {\n\t\t\t\t\t// A child has become not-visible between parent version.\n\t\t\t\t\t// This is a data inconsistency that can happen in old data\n\t\t\t\t\t// i.e. pre element versioning.\n\t\t\t\t\t//\n\t\t\t\t\t// see node 321452894, changed 7 times in\n\t\t\t\t\t// the same changeset, version 5 was a delete. (also node 65172196)\n\t\t\t\t\tif !opts.IgnoreInconsistency {\n\t\t\t\t\t\treturn nil, fmt.Errorf(\"%v: %v: child deleted between parent versions\",\n\t\t\t\t\t\t\tparent.ID(), fid)\n\t\t\t\t\t}\n\t\t\t\t}\n\t\t\t}\n\n",
+				Replace:    "\t\t\tif start < nextVersion {\n\t\t\t\tfor _, version := range child[start:nextVersion] {\n\t\t\t\t\tif !version.Visible && !opts.IgnoreInconsistency {\n\t\t\t\t\t\treturn nil, fmt.Errorf(\"%v: %v: child deleted between parent versions\", parent.ID(), fid)\n\t\t\t\t\t}\n\n\t\t\t\t\tfor _, cl := range locs {\n\t\t\t\t\t\tu := version.Update()\n\t\t\t\t\t\tu.Index = cl.Index\n\t\t\t\t\t\tupdates = append(updates, u)\n\t\t\t\t\t}\n\t\t\t\t}\n\t\t\t}\n\n",
+				ExpectRule: "A5", ExpectConstruct: "window@Compute visible-only"},
+			{Name: "update-built-once-wrong-version", File: cmp,
+				Find:       "\t\t\t\t\tfor _, cl := range locs {\n\t\t\t\t\t\tu := child[k].Update()\n\t\t\t\t\t\tu.Index = cl.Index\n\t\t\t\t\t\tupdates = append(updates, u)\n\t\t\t\t\t}\n",
+				Replace:    "\t\t\t\t\tu := child[start].Update()\n\t\t\t\t\tfor _, cl := range locs {\n\t\t\t\t\t\tu.Index = cl.Index\n\t\t\t\t\t\tupdates = append(updates, u)\n\t\t\t\t\t}\n",
+				ExpectRule: "A5", ExpectConstruct: "window@Compute"},
 		},
 	})
 }
